@@ -116,7 +116,7 @@ PROPS = {
     "C05": {
         "title": "Element-wise arithmetic, comparison, min/max and user-defined maps are pointwise",
         "rules": [on_program(rules_guard.rule_div_zero), on_program(rules_guard.rule_sub_infinity), on_program(rules_sibling.rule_mirror_simplify), rules_ftype.rule_mix_arith,
-                  on_program(rules_level.rule_terminal_type), on_program(rules_level.rule_next_level), on_program(rules_level.rule_fold_zeros), on_program(rules_dispatch.rule_range_types), on_program(rules_dispatch.rule_labeling_family), on_program(rules_guard.rule_partial_shortcut), on_program(rules_layer.rule_result_by_value), on_program(rules_level.rule_operand_unpack)],
+                  on_program(rules_level.rule_terminal_type), on_program(rules_level.rule_next_level), on_program(rules_level.rule_fold_zeros), on_program(rules_dispatch.rule_range_types), on_program(rules_dispatch.rule_labeling_family), on_program(rules_guard.rule_partial_shortcut), on_program(rules_layer.rule_result_by_value), on_program(rules_level.rule_operand_unpack), on_program(rules_ct.rule_identity)],
         "explanation": STRUCTURAL + ". C05: partiality clause (every `/` and `%` on operand values is dominated by a zero test throwing DIVIDE_BY_ZERO; x - infinity throws SUBTRACT_INFINITY; a shortcut predicate of a throwing policy may answer true only by pinning the second operand to one constant handle — six shortcuts taken on the first operand alone are recorded as known findings), "
                        "mirror clause (for a commutative operation the two shortcut predicates simplifiesToFirstArg/SecondArg are mirror images), cross-forest clause (handles are used only with their own forest), "
                        "range clause (a terminal built from a truth value carries the result forest's terminal type unless the operation is all-BOOLEAN) the level discipline of the recursion (set-style next level only from non-negative levels), and the range-scan clause (a scalar fold that skips zero children is a plain sum with 0 for handle 0; minimum / maximum scans visit every child — defect D12), and the factory clause (value-typed templates are instantiated with the scalar type of the case they are constructed under).",
